@@ -118,6 +118,10 @@ const warnStartDelim = "HELM_ERR_START"
 const warnEndDelim = "HELM_ERR_END"
 const recursionMaxNums = 1000
 
+// tplDepthKey is the entry of the include bookkeeping map that counts how deep
+// tpl calls are nested (it cannot collide with a template name).
+const tplDepthKey = "\x00tpl"
+
 var warnRegex = regexp.MustCompile(warnStartDelim + `((?s).*)` + warnEndDelim)
 
 func warnWrap(warn string) string {
@@ -147,6 +151,14 @@ func includeFun(t *template.Template, includedNames map[string]int) func(string,
 // defined by their enclosing contexts.
 func tplFun(parent *template.Template, includedNames map[string]int, strict bool) func(string, interface{}) (string, error) {
 	return func(tpl string, vals interface{}) (string, error) {
+		// tpl text may itself call tpl: bound the nesting like includeFun does,
+		// so that a self-referencing value ends with an error, not a stack overflow.
+		if includedNames[tplDepthKey] > recursionMaxNums {
+			return "", errors.Wrapf(fmt.Errorf("unable to execute template"), "rendering template has a nested tpl call deeper than %d", recursionMaxNums)
+		}
+		includedNames[tplDepthKey]++
+		defer func() { includedNames[tplDepthKey]-- }()
+
 		t, err := parent.Clone()
 		if err != nil {
 			return "", errors.Wrapf(err, "cannot clone template")
